@@ -63,6 +63,20 @@ class Impl:
             fr.message += b"\x99"
         return res
 
+    def frag_on(self):
+        return isinstance(self.queue(), self.st.FrameQueueFrag)
+
+    def enq_frag(self, f):
+        """the message of frame f arrives as two fragments (one reused frame object, like the network layer's frame_buf)"""
+        fr = self.reused
+        out = []
+        for typ, res, body in ((148, 2, f["body"][:1]), (150, f["type"], f["body"][1:])):
+            fr.header.from_node, fr.header.to_node = f["from"], 0o1
+            fr.header.frame_id, fr.header.message_type, fr.header.reserved = f["id"], typ, res
+            fr.message = bytearray(body)
+            out.append(bool(self.queue().enqueue(fr)))
+        return out
+
     def deq(self):
         return self.proj(self.queue().dequeue())
 
@@ -89,6 +103,9 @@ def apply_label(impl, name, args):
         f, how = args
         res = impl.enq(f, how)
         ev = dict(op="enq", f=f, how=how, res=bool(res))
+    elif name == "EnqFrag":
+        first, res = impl.enq_frag(args[0])
+        ev = dict(op="enqfrag", f=args[0], first=first, res=res)
     elif name == "Deq":
         r = impl.deq()
         ev = dict(op="deq", has=r is not None, res=r or {})
@@ -113,7 +130,9 @@ NOFRAME = {"from": -1, "id": -1, "type": -1, "body": []}
 def compare(ev, src, dst):
     """conformance of one observed step with the spec edge src -> dst; returns failed clause or None"""
     last = dst["last"]
-    if ev["op"] == "enq":
+    if ev["op"] == "enqfrag" and not ev["first"]:
+        return "C12.EnqueueResult"
+    if ev["op"] in ("enq", "enqfrag"):
         if ev["res"] != last["res"]:
             if ev["res"]:
                 return "C12.Bound" if len(src["q"]) >= src["max"] else "C12.NoDup"
@@ -158,7 +177,10 @@ def random_history(rng, depth, via_node):
         if x < 0.5:
             fr, i, t = rng.choice(keys)
             f = {"from": fr, "id": i, "type": t, "body": [rng.randrange(256) for _ in range(rng.choice([0, 1, 3, 24]))]}
-            ev = apply_label(impl, "Enq", [f, rng.choice(["fresh", "mutate", "reuse"])])
+            if impl.frag_on() and rng.random() < 0.3:
+                ev = apply_label(impl, "EnqFrag", [f])
+            else:
+                ev = apply_label(impl, "Enq", [f, rng.choice(["fresh", "mutate", "reuse"])])
         elif x < 0.75:
             ev = apply_label(impl, "Deq", [])
         elif x < 0.85:
@@ -237,5 +259,5 @@ def run(chk):
     chk.exhaustive = True
     chk.extra["spec_edges"] = len(g.edges)
     chk.extra["spec_states"] = len(g.nodes)
-    chk.assumptions += ["frames offered are non-fragment types (fragment reassembly is C06)",
+    chk.assumptions += ["frames offered are non-fragment types or complete FIRST+LAST fragment pairs (other fragment patterns are C06)",
                         "queue content observed only through enqueue/dequeue/peek/len/max_queue_size"]
